@@ -414,6 +414,40 @@ def run_multi(case):
         if not same:
             raise Violation("multi", f"bit flipped at octet {p} of message {j} ({'signed' if signed_mask[j] else 'unsigned'}) but the envelope still validates", "multi-flip-accepted:" + ("signed" if signed_mask[j] else "unsigned"))
         classes.append("tamper-unauthenticated")
+    # a signed message of the envelope (first or continuation) that reports a TSIG error must be
+    # rejected, whether the peer signed it that way or the error field was set in transit
+    # (RFC 8945 5.3.1: in continuation messages the error field is not even part of the digest)
+    for j, err in case.get("peer_errors", []):
+        sidx = [i for i in range(n) if signed_mask[i]]
+        j = sidx[j % len(sidx)]
+        prior2, between2 = None, []
+        for i in range(j):
+            if signed_mask[i]:
+                prior2, between2 = T.locate(wires[i]).mac, []
+            else:
+                between2.append(wires[i])
+        other = b"\x00\x00\x00\x00\x00\x01" if err == 18 else b""
+        if prior2 is None:
+            ew, _ = T.append_tsig(plain[j], klabels, alabels, secret, now + j, case["fudge"], error=err, other=other, request_mac=request_mac)
+        else:
+            ew, _ = T.append_tsig(plain[j], klabels, alabels, secret, now + j, case["fudge"], error=err, other=other, prior_mac=prior2, between=between2)
+        for label, bw in (("peer-signed", ew), ("set-in-transit", None)):
+            if bw is None:
+                f = T.locate(wires[j])
+                bw = bytearray(wires[j])
+                epos = len(bw) - 2 - len(f.other) - 2  # error field: before other-len and other data
+                bw[epos:epos + 2] = err.to_bytes(2, "big")
+                bw = bytes(bw)
+            bad = list(wires)
+            bad[j] = bw
+            try:
+                feed(bad[: j + 1])
+            except dns.exception.DNSException:
+                classes.append("envelope-peer-error-rejected")
+                if j > 0:
+                    classes.append("continuation-peer-error-rejected")
+                continue
+            raise Violation("multi", f"message {j} of the envelope reports TSIG error {err} ({label}) and was accepted", f"multi-peer-error:{label}:{'first' if j == 0 else 'continuation'}")
     # dropping an unsigned intermediate must be detected
     if unsigned:
         j = unsigned[0]
@@ -470,6 +504,7 @@ def multi_cases(draw):
         "signed": draw(st.lists(st.booleans(), min_size=n, max_size=n)),
         "request_mac": draw(st.one_of(st.just(b""), st.binary(min_size=16, max_size=64))).hex(),
         "tamper": draw(st.lists(st.tuples(st.integers(0, 5), st.integers(0, 400), st.integers(0, 7)), min_size=1, max_size=6).map(lambda l: [list(x) for x in l])),
+        "peer_errors": draw(st.lists(st.tuples(st.integers(0, 5), st.sampled_from([16, 17, 18, 22, 1, 99, 4095])), min_size=1, max_size=3).map(lambda l: [list(x) for x in l])),
     }
 
 
@@ -483,6 +518,7 @@ def parts(tier):
         Part("flips", run_flips, strategy=sign_cases(small=True), n={"quick": 48, "thorough": 4800},
              require={"sweep": 30, "unauthenticated:id": 30}, shards={"quick": 16, "thorough": 16}),
         Part("multi", run_multi, strategy=multi_cases(), n={"quick": 600, "thorough": 30000},
-             require={"unsigned-intermediate": 100, "tamper-rejected": 200, "drop-detected": 100, "library-signed-envelope": 200},
+             require={"unsigned-intermediate": 100, "tamper-rejected": 200, "drop-detected": 100, "library-signed-envelope": 200,
+                      "continuation-peer-error-rejected": 100},
              shards={"quick": 8, "thorough": 16}),
     ]
